@@ -69,4 +69,32 @@ theorem C01_arg_names_as_in_source (c : Content) (cache : Cache) (f : ArgFlags) 
   simp only [argGroups, List.flatMap_cons, List.flatMap_nil, argGroup, f1, f2, f3, f4, f5, f6, f7,
     f8, f9, g1, g2, g3, g4, g5, g6, g7, g8, g9, getArgNames, List.append_assoc, List.append_nil]
 
+/-- the static / dynamic split of `_create_cache` visits a name exactly as the source's if / elif
+    chain says (`classifyKind` is regenerated from it), a derived quantity being static — and added
+    to the parameter names — iff all its arguments are parameter names -/
+theorem C13_split_as_in_source (c : Content) (k : Name) (ks st dy apn : List Name) :
+    classify c (k :: ks) st dy apn =
+      match classifyKind ((omKeys c.rxns).contains k) ((omKeys c.surs).contains k)
+          ((omKeys c.vars).contains k) ((omKeys c.pars).contains k) with
+      | .dynamic => classify c ks st (k :: dy) apn
+      | .static => classify c ks (k :: st) dy apn
+      | .derived =>
+        match c.derived.lookup k with
+        | none => classify c ks st dy apn
+        | some d =>
+          if d.args.all (fun a => apn.contains a) then classify c ks (k :: st) dy (k :: apn)
+          else classify c ks st (k :: dy) apn := by
+  rw [classify]
+  unfold classifyKind
+  cases (omKeys c.rxns).contains k <;> cases (omKeys c.surs).contains k <;>
+    cases (omKeys c.vars).contains k <;> cases (omKeys c.pars).contains k <;> simp <;>
+    (cases List.lookup k c.derived <;> rfl)
+
+/-- … starting from the set of ALL parameter names (the translator refuses any other seed of
+    `all_parameter_names`), along the order `_sort_dependencies` returned -/
+theorem C13_split_seed_as_in_source (c : Content) {cache : Cache} (h : createCache c = .ok cache) :
+    cache.dynOrder = (classify c cache.order [] [] (omKeys c.pars)).2.1 := by
+  obtain ⟨order, _, _, _, _, _, _, _, _, _, _, hcache⟩ := createCache_ok h
+  rw [hcache]
+
 end Mxl.C01
